@@ -1,8 +1,311 @@
 //! Instance generators of the remaining examples (one `gen_<name>` per example; see `eng_ex.rs` for the contract).
+//!
+//! Conventions shared by all generators below:
+//!  * sizes are tiny (the Lean specifications enumerate exhaustively) but varied, with explicit edge cases
+//!    (empty / single-element instances, zero and negative weights where the reader accepts them, ties, repeated lines);
+//!  * `tags` describe what is special about the instance; a tag starting with `ood_` marks an instance that the
+//!    reader accepts but that lies OUTSIDE the domain the example's model / documentation assumes (such instances are
+//!    produced rarely and must be reported separately);
+//!  * `tokens` is what `DdoModel/Examples/<Name>.lean : specFromTokens` parses (always starts with the sizes).
 use crate::eng_ex::*;
 #[allow(unused_imports)]
 use crate::rng::Rng;
 
+fn join<T: ToString>(v: &[T]) -> String { v.iter().map(|x| x.to_string()).collect::<Vec<_>>().join(" ") }
+fn shuffle<T>(rng: &mut Rng, v: &mut [T]) { for i in (1..v.len()).rev() { let j = rng.below(i as u64 + 1) as usize; v.swap(i, j); } }
+fn push_tag(tags: &mut Vec<&'static str>, cond: bool, t: &'static str) { if cond && !tags.contains(&t) { tags.push(t); } }
+/// a small "how many" with explicit edge cases: `zero` with probability 1/40 (if allowed), 1 with probability 1/12, else 2..=hi
+fn small_size(rng: &mut Rng, allow_zero: bool, hi: i64) -> usize {
+    if allow_zero && rng.chance(1, 40) { 0 } else if rng.chance(1, 12) { 1 } else { rng.range(2, hi) as usize }
+}
+/// weights drawn according to a random "mode" (0 positive 1..=9, 1 tiny 1..=2 => many ties, 2 with zeros 0..=4,
+/// 3 mixed signs -5..=9, 4 all negative -9..=-1, 5 all equal to 1)
+fn weight(rng: &mut Rng, mode: u64) -> i64 {
+    match mode { 0 => rng.range(1, 9), 1 => rng.range(1, 2), 2 => rng.range(0, 4), 3 => rng.range(-5, 9), 4 => rng.range(-9, -1), _ => 1 }
+}
+fn weight_tags(tags: &mut Vec<&'static str>, ws: &[i64]) {
+    push_tag(tags, ws.iter().any(|x| *x < 0), "negative_weights");
+    push_tag(tags, ws.iter().any(|x| *x == 0), "zero_weight");
+    push_tag(tags, !ws.is_empty() && ws.iter().all(|x| *x < 0), "all_negative");
+    let mut s = ws.to_vec(); s.sort(); s.dedup();
+    push_tag(tags, s.len() < ws.len(), "ties");
+}
+/// random simple graph on 0..n: each unordered pair with probability `num/4`, random orientation, shuffled
+fn random_pairs(rng: &mut Rng, n: usize) -> Vec<(usize, usize)> {
+    let num = rng.below(5);
+    let mut e = vec![];
+    for u in 0..n { for v in (u + 1)..n { if rng.below(4) < num { e.push(if rng.chance(1, 2) { (u, v) } else { (v, u) }); } } }
+    shuffle(rng, &mut e);
+    e
+}
+
+// ---------------------------------------------------------------------------------------------- misp
+/// `p edge <n> <m>` / `n <vertex> <weight>` (optional, default weight 1) / `e <u> <v>` (1-based); `c …` comments.
+/// tokens: `n m w_1..w_n (u v)*m`.
+pub fn gen_misp(rng: &mut Rng) -> ExInst {
+    let mut tags = vec![];
+    let n = small_size(rng, true, 11);
+    // weights: 0..=4 as in `weight`, 5 = no `n` line at all (unweighted), 6 = `n` lines for about half of the vertices
+    let mode = *rng.pick(&[0u64, 0, 1, 2, 3, 3, 4, 5, 5, 6]);
+    let mut w = vec![1i64; n];
+    let mut declared = vec![false; n];
+    for v in 0..n {
+        match mode {
+            5 => {}
+            6 => if rng.chance(1, 2) { declared[v] = true; w[v] = rng.range(1, 9); },
+            m => { declared[v] = true; w[v] = weight(rng, m); }
+        }
+    }
+    push_tag(&mut tags, mode == 5, "unweighted");
+    push_tag(&mut tags, mode == 6 && declared.iter().any(|d| !*d), "default_weights");
+    weight_tags(&mut tags, &w);
+    let mut edges = random_pairs(rng, n);
+    if !edges.is_empty() && rng.chance(1, 6) {
+        for _ in 0..rng.range(1, 3) { let (u, v) = *rng.pick(&edges); edges.push(if rng.chance(1, 2) { (u, v) } else { (v, u) }); }
+        shuffle(rng, &mut edges);
+        tags.push("duplicate_edges");
+    }
+    if n >= 1 && rng.chance(1, 40) {
+        let v = rng.below(n as u64) as usize; edges.push((v, v)); shuffle(rng, &mut edges);
+        tags.push("ood_self_loop");
+    }
+    push_tag(&mut tags, n == 0, "empty_graph");
+    push_tag(&mut tags, n == 1, "single_vertex");
+    push_tag(&mut tags, n > 1 && edges.is_empty(), "no_edges");
+    let mut file = String::new();
+    if rng.chance(1, 3) { file.push_str("c random instance of the ddo verification harness\n"); }
+    file.push_str(&format!("p edge {} {}\n", n, edges.len()));
+    let nodes_first = rng.chance(2, 3);
+    let node_lines: String = (0..n).filter(|v| declared[*v]).map(|v| format!("n {} {}\n", v + 1, w[v])).collect();
+    let edge_lines: String = edges.iter().map(|(u, v)| format!("e {} {}\n", u + 1, v + 1)).collect();
+    if nodes_first { file.push_str(&node_lines); file.push_str(&edge_lines); } else { file.push_str(&edge_lines); file.push_str(&node_lines); }
+    let tokens = format!("{} {} {} {}", n, edges.len(), join(&w), edges.iter().map(|(u, v)| format!("{} {}", u + 1, v + 1)).collect::<Vec<_>>().join(" "));
+    ExInst { file, tokens, tags }
+}
+
+// ---------------------------------------------------------------------------------------------- max2sat
+/// `p wcnf <n> <m>` / `<w> <x> <y> 0` (binary; x = y unit, x = -y tautology) / `<w> <x> 0` (unit); `c …` comments.
+/// tokens: `n m (w x y)*m` (unit clause: y = x).  Every clause (as a set of literals) is listed once, except under
+/// `ood_duplicate_clauses` (the reader silently keeps the last weight only).
+pub fn gen_max2sat(rng: &mut Rng) -> ExInst {
+    let mut tags = vec![];
+    let n = small_size(rng, true, 10) as i64;
+    let mode = *rng.pick(&[0u64, 0, 0, 1, 1, 2, 3, 3, 5]);
+    let unit_heavy = rng.chance(1, 4);
+    let m = if n == 0 { 0 } else { rng.range(0, 3 * n + 1) };
+    let mut clauses: Vec<(i64, i64, i64)> = vec![]; // (w, a, b) with a <= b
+    let lit = |rng: &mut Rng| -> i64 { let v = rng.range(1, n); if rng.chance(1, 2) { v } else { -v } };
+    for _ in 0..m {
+        let k = rng.below(20);
+        let (a, b) = if n < 2 || (unit_heavy && k < 10) || k < 3 { let x = lit(rng); (x, x) }             // unit
+            else if k == 19 { let v = rng.range(1, n); (-v, v) }                                         // tautology
+            else { let x = lit(rng); let mut y = lit(rng); while y.abs() == x.abs() { y = lit(rng); } (x.min(y), x.max(y)) };
+        if clauses.iter().any(|c| c.1 == a && c.2 == b) { continue; }
+        clauses.push((weight(rng, mode), a, b));
+    }
+    if !clauses.is_empty() && rng.chance(1, 30) {
+        let (_, a, b) = *rng.pick(&clauses);
+        clauses.push((rng.range(1, 9), a, b));
+        tags.push("ood_duplicate_clauses");
+    }
+    let ws: Vec<i64> = clauses.iter().map(|c| c.0).collect();
+    weight_tags(&mut tags, &ws);
+    push_tag(&mut tags, n == 0, "no_vars");
+    push_tag(&mut tags, n == 1, "single_var");
+    push_tag(&mut tags, clauses.is_empty(), "no_clauses");
+    push_tag(&mut tags, clauses.iter().any(|c| c.1 == c.2), "unit_clauses");
+    push_tag(&mut tags, clauses.iter().any(|c| c.1 == -c.2), "tautology");
+    let mut file = String::new();
+    if rng.chance(1, 3) { file.push_str("c random instance of the ddo verification harness\n"); }
+    file.push_str(&format!("p wcnf {} {}\n", n, clauses.len()));
+    for (w, a, b) in clauses.iter() {
+        if a == b {
+            if rng.chance(1, 3) { file.push_str(&format!("{} {} {} 0\n", w, a, a)); push_tag(&mut tags, true, "unit_as_binary"); }
+            else { file.push_str(&format!("{} {} 0\n", w, a)); }
+        } else if rng.chance(1, 2) { file.push_str(&format!("{} {} {} 0\n", w, a, b)); } else { file.push_str(&format!("{} {} {} 0\n", w, b, a)); }
+    }
+    let tokens = format!("{} {} {}", n, clauses.len(), clauses.iter().map(|(w, a, b)| format!("{} {} {}", w, a, b)).collect::<Vec<_>>().join(" "));
+    ExInst { file, tokens, tags }
+}
+/// `-f <file> [-w <width>]` (max2sat and mcp: `-t` is a TIMEOUT there, and they are sequential)
+pub fn dashf_args(f: &str, w: Option<usize>, _t: usize) -> Vec<String> {
+    let mut a = vec!["-f".to_string(), f.to_string()];
+    if let Some(w) = w { a.push("-w".into()); a.push(w.to_string()); }
+    a
+}
+
+// ---------------------------------------------------------------------------------------------- mcp
+/// `<n> <m>` / `<u> <v> <w>` (1-based, undirected, integer weight of any sign); `c …` comments.
+/// tokens: `n m (u v w)*m`.  Every edge is listed once and has two distinct end points, except under
+/// `ood_duplicate_edges` (the reader keeps the last weight) / `ood_self_loop`.
+pub fn gen_mcp(rng: &mut Rng) -> ExInst {
+    let mut tags = vec![];
+    let n = small_size(rng, true, 10);
+    let mode = *rng.pick(&[0u64, 0, 1, 2, 3, 3, 3, 4, 5]);
+    let mut edges: Vec<(usize, usize, i64)> = random_pairs(rng, n).into_iter().map(|(u, v)| (u, v, weight(rng, mode))).collect();
+    if !edges.is_empty() && rng.chance(1, 30) {
+        let (u, v, _) = *rng.pick(&edges);
+        edges.push((v, u, rng.range(-9, 9)));
+        tags.push("ood_duplicate_edges");
+    }
+    if n >= 1 && rng.chance(1, 40) {
+        let v = rng.below(n as u64) as usize; edges.push((v, v, rng.range(-9, 9))); shuffle(rng, &mut edges);
+        tags.push("ood_self_loop");
+    }
+    let ws: Vec<i64> = edges.iter().map(|e| e.2).collect();
+    weight_tags(&mut tags, &ws);
+    push_tag(&mut tags, mode == 5, "unweighted");
+    push_tag(&mut tags, n == 0, "empty_graph");
+    push_tag(&mut tags, n == 1, "single_vertex");
+    push_tag(&mut tags, n > 1 && edges.is_empty(), "no_edges");
+    let mut file = String::new();
+    if rng.chance(1, 3) { file.push_str("c random instance of the ddo verification harness\n"); }
+    file.push_str(&format!("{} {}\n", n, edges.len()));
+    for (u, v, w) in edges.iter() { file.push_str(&format!("{} {} {}\n", u + 1, v + 1, w)); }
+    let tokens = format!("{} {} {}", n, edges.len(), edges.iter().map(|(u, v, w)| format!("{} {} {}", u + 1, v + 1, w)).collect::<Vec<_>>().join(" "));
+    ExInst { file, tokens, tags }
+}
+
+// ---------------------------------------------------------------------------------------------- lcs
+/// `<k> <alphabet size>` then exactly k lines `<length> <string>` (no blank line, strings non-empty).
+/// tokens: `k alphabet (len c_1..c_len)*k` with the characters as code points.  The first string has at most 12
+/// characters (the specification enumerates its subsequences), the others at most 14.
+pub fn gen_lcs(rng: &mut Rng) -> ExInst {
+    let mut tags = vec![];
+    let k = if rng.chance(1, 12) { 1 } else { rng.range(2, 4) as usize };
+    let alpha_size = rng.range(1, 4) as usize;
+    let alphabet: Vec<char> = rng.pick(&["acgt", "ABCD", "tgca", "zaZ0", "0123"]).chars().take(alpha_size).collect();
+    let rnd_string = |rng: &mut Rng, len: usize, al: &[char]| -> Vec<char> { (0..len).map(|_| *rng.pick(al)).collect() };
+    let mode = rng.below(10);
+    let mut strings: Vec<Vec<char>> = vec![];
+    match mode {
+        0 | 1 => { // independent random strings, any length
+            for i in 0..k { let len = rng.range(1, if i == 0 { 12 } else { 14 }) as usize; strings.push(rnd_string(rng, len, &alphabet)); }
+        }
+        2 | 3 | 4 => { // long strings over a small alphabet: many incomparable partial matches
+            let al = &alphabet[..alphabet.len().min(rng.range(2, 3) as usize)];
+            for i in 0..k { let len = rng.range(8, if i == 0 { 12 } else { 14 }) as usize; strings.push(rnd_string(rng, len, al)); }
+            tags.push("long_strings");
+        }
+        5 | 6 | 7 => { // noisy copies of a common base: long common subsequences
+            let blen = rng.range(2, 10) as usize; let base = rnd_string(rng, blen, &alphabet);
+            for _ in 0..k {
+                let mut s = base.clone();
+                for _ in 0..rng.range(0, 2) { if s.len() > 1 { let p = rng.below(s.len() as u64) as usize; s.remove(p); } }
+                for _ in 0..rng.range(0, 3) { if s.len() < 12 { let p = rng.below(s.len() as u64 + 1) as usize; s.insert(p, *rng.pick(&alphabet)); } }
+                strings.push(s);
+            }
+            tags.push("noisy_copies");
+        }
+        8 => { // identical strings
+            let len = rng.range(1, 12) as usize; let s = rnd_string(rng, len, &alphabet);
+            for _ in 0..k { strings.push(s.clone()); }
+            tags.push("identical_strings");
+        }
+        _ => { // string i only uses character i (mod alphabet): no common character when k >= 2 and alphabet >= 2
+            for i in 0..k { let len = rng.range(1, 6) as usize; strings.push(vec![alphabet[i % alphabet.len()]; len]); }
+            push_tag(&mut tags, k >= 2 && alphabet.len() >= 2, "no_common_character");
+        }
+    }
+    let mut used: Vec<char> = strings.iter().flatten().copied().collect(); used.sort(); used.dedup();
+    let mut declared = used.len();
+    if rng.chance(1, 6) { declared += rng.range(1, 2) as usize; tags.push("unused_alphabet"); }
+    push_tag(&mut tags, k == 1, "single_string");
+    push_tag(&mut tags, used.len() == 1, "single_character");
+    push_tag(&mut tags, strings.iter().any(|s| s.len() == 1), "length_one_string");
+    { let mut l: Vec<usize> = strings.iter().map(|s| s.len()).collect(); l.sort(); l.dedup(); push_tag(&mut tags, k > 1 && l.len() < k, "ties"); }
+    let sep = if rng.chance(1, 2) { "\t" } else { " " };
+    let mut file = format!("{} {}\n", k, declared);
+    for s in strings.iter() { file.push_str(&format!("{}{}{}\n", s.len(), sep, s.iter().collect::<String>())); }
+    let tokens = format!("{} {} {}", k, declared, strings.iter().map(|s| format!("{} {}", s.len(), join(&s.iter().map(|c| *c as u32).collect::<Vec<_>>()))).collect::<Vec<_>>().join(" "));
+    ExInst { file, tokens, tags }
+}
+
+// ---------------------------------------------------------------------------------------------- golomb
+/// No instance file: the number of marks is the positional argument.  The "file" holds that number (the `args`
+/// function reads it back).  tokens: `n`.  n = 8 takes several seconds in the debug build and is drawn rarely; n >= 9
+/// takes minutes and is never drawn.
+pub fn gen_golomb(rng: &mut Rng) -> ExInst {
+    let n = if rng.chance(1, 40) { 8 } else if rng.chance(1, 10) { 7 } else if rng.chance(1, 12) { 1 } else { rng.range(2, 6) };
+    let mut tags = vec![];
+    push_tag(&mut tags, n == 1, "single_mark");
+    ExInst { file: format!("{}\n", n), tokens: n.to_string(), tags }
+}
+/// `<n> [-w <width>]`; without `-w` the example uses FixedWidth(10); it is sequential (`-t` is an ignored timeout)
+pub fn golomb_args(f: &str, w: Option<usize>, _t: usize) -> Vec<String> {
+    let n = std::fs::read_to_string(f).expect("golomb pseudo-instance").trim().to_string();
+    let mut a = vec![n];
+    if let Some(w) = w { a.push("-w".into()); a.push(w.to_string()); }
+    a
+}
+
+// ---------------------------------------------------------------------------------------------- psp
+/// `T` / `n` / `#orders` / blank / n rows of changeover costs q[from][to] / blank / one row of stocking costs / blank /
+/// n rows of T demands in {0,1} / optionally: blank + reference optimum (ignored by the reader).
+/// tokens: `T n q(n*n, row major) h(n) d(n*T, row major)`.  (n+1)^T <= 20000 (the specification enumerates all plans).
+/// In-domain: q[i][i] = 0 (else `ood_nonzero_diagonal`); an instance whose demands cannot be met in time is tagged
+/// `infeasible` (the program must then print -1).
+pub fn gen_psp(rng: &mut Rng) -> ExInst {
+    let mut tags = vec![];
+    let n = *rng.pick(&[1usize, 2, 2, 2, 3, 3, 3, 4]);
+    let tmax = [0i64, 9, 8, 7, 6][n];
+    let t_hor = if rng.chance(1, 15) { 1 } else { rng.range(2, tmax) } as usize;
+    // demands
+    let mut d = vec![vec![0i64; t_hor]; n];
+    let dmode = rng.below(6);
+    if dmode == 0 { // raw random demands: possibly infeasible
+        let num = rng.range(1, 3) as u64;
+        for i in 0..n { for t in 0..t_hor { if rng.below(2 * n as u64 + 2) < num { d[i][t] = 1; } } }
+    } else { // feasible by construction: draw a plan, then a due date not before each production
+        let busy = if dmode == 1 { (1, 1) } else { (rng.range(1, 4) as u64, 4) };
+        for s in 0..t_hor {
+            if !rng.chance(busy.0, busy.1) { continue; }
+            let i = rng.below(n as u64) as usize;
+            let free: Vec<usize> = (s..t_hor).filter(|t| d[i][*t] == 0).collect();
+            if free.is_empty() { continue; }
+            let t = if rng.chance(1, 3) { free[0] } else { *rng.pick(&free) };
+            d[i][t] = 1;
+        }
+    }
+    let mut cum = 0i64; let mut feasible = true;
+    for t in 0..t_hor { for i in 0..n { cum += d[i][t]; } if cum > t as i64 + 1 { feasible = false; } }
+    let total = cum;
+    push_tag(&mut tags, !feasible, "infeasible");
+    push_tag(&mut tags, total == 0, "no_demand");
+    push_tag(&mut tags, feasible && total == t_hor as i64, "all_periods_busy");
+    push_tag(&mut tags, n == 1, "single_item");
+    push_tag(&mut tags, t_hor == 1, "single_period");
+    push_tag(&mut tags, (0..n).any(|i| d[i].iter().all(|x| *x == 0)) && total > 0, "item_without_demand");
+    // changeover costs
+    let mut q = vec![vec![0i64; n]; n];
+    let qmode = rng.below(6);
+    for a in 0..n { for b in 0..n { if a != b {
+        q[a][b] = match qmode { 0 => 0, 1 => rng.range(1, 2), 2 => if a < b { rng.range(0, 9) } else { q[b][a] }, 3 => rng.range(10, 40), _ => rng.range(0, 9) };
+    } } }
+    push_tag(&mut tags, qmode == 0 && n > 1, "zero_changeover");
+    push_tag(&mut tags, qmode == 2 && n > 1, "symmetric_changeover");
+    if rng.chance(1, 40) { for a in 0..n { q[a][a] = rng.range(1, 5); } tags.push("ood_nonzero_diagonal"); }
+    // stocking costs
+    let hmode = rng.below(5);
+    let h: Vec<i64> = (0..n).map(|_| match hmode { 0 => 0, 1 => 1, 2 => rng.range(5, 20), _ => rng.range(0, 5) }).collect();
+    push_tag(&mut tags, h.iter().all(|x| *x == 0), "zero_stocking");
+    let mut file = format!("{}\n{}\n{}\n\n", t_hor, n, total);
+    for a in 0..n { file.push_str(&join(&q[a])); file.push('\n'); }
+    file.push('\n');
+    file.push_str(&join(&h)); file.push_str("\n\n");
+    for i in 0..n { file.push_str(&join(&d[i])); if rng.chance(1, 8) { file.push(' '); } file.push('\n'); }
+    if rng.chance(1, 2) { file.push_str("\n0\n"); }
+    let tokens = format!("{} {} {} {} {}", t_hor, n, q.iter().map(|r| join(r)).collect::<Vec<_>>().join(" "), join(&h), d.iter().map(|r| join(r)).collect::<Vec<_>>().join(" "));
+    ExInst { file, tokens, tags }
+}
+
 pub fn more_examples() -> Vec<Example> {
-    vec![]
+    vec![
+        Example { name: "misp", gen: gen_misp, args: std_args, parse: std_parse, threads: true },
+        Example { name: "max2sat", gen: gen_max2sat, args: dashf_args, parse: std_parse, threads: false },
+        Example { name: "mcp", gen: gen_mcp, args: dashf_args, parse: std_parse, threads: false },
+        Example { name: "lcs", gen: gen_lcs, args: std_args, parse: std_parse, threads: true },
+        Example { name: "golomb", gen: gen_golomb, args: golomb_args, parse: std_parse, threads: false },
+        Example { name: "psp", gen: gen_psp, args: std_args, parse: std_parse, threads: true },
+    ]
 }
